@@ -19,6 +19,7 @@ EXPLANATION = (
     "verbatim (no sort / dedup / reverse in the deserialization cone), so re-serialization reads "
     "the same values through the same ordered views."
     " Later additions: the driver now distinguishes the per-field `__SerializeWith` wrappers (they used to collapse into one function), so the value type behind every ordered view is the field's own; the re-sort of optimize() is on every exit of the function."
+    ' Round 6: no cell-typed field in the engine can hold a remembered buffer (C06.1 borrowed).'
 )
 NOT_DECIDED = "Byte-level determinism of rmp-serde itself (dependency); C08's field fidelity is assumed."
 
@@ -73,6 +74,10 @@ def check(run):
         run.guard("C09.3.no-clock-or-address", cfg, lambda: rule_nondeterminism(run, F, cfg))
         run.guard("C09.4.fixpoint", cfg, lambda: rule_fixpoint(run, F, cfg))
         run.guard("C09.4.fixpoint", cfg + "/no-carry-over", lambda: rule_no_carry(run, F, cfg))
+        from . import C06 as _C06   # lazy: C06 borrows from this module
+        bim = run.borrow("C06", why="the bytes must be a function of the engine's current content: a buffer remembered in a "
+                                    "cell inside the engine would be returned again after the content changed")
+        run.guard("C09.via.C06.1.interior-mutability", cfg, lambda: _C06.rule_im(bim, F, cfg))
 
 
 def ser_impl(F, ty):
